@@ -10,6 +10,7 @@ import (
 	"os"
 	"reflect"
 	"sync"
+	"time"
 )
 
 type model struct {
@@ -42,6 +43,7 @@ func EngineOnly(why string) {
 		panic(engineOnly{why})
 	}
 }
+
 type assumeFailed struct{ msg string }
 
 func next(name string) uint64 {
@@ -175,19 +177,22 @@ func AllowPanic() {
 	cur.noPanic = false
 	mu.Unlock()
 }
-func Fuel(n int)                       {}
-func Tier() int                        { return tier }
-func Symbolic() bool                   { return false }
-func Replace(target string, fn any)    {}
-func StubPackage(path string)          {}
-func InitPackage(path string)          {}
-func MapOrderNondet(on bool)           {}
-func GoMode(m int)                     {}
-func Switches(n int)                   {}
-func Yield()                           {}
-func NumTimers() int                   { return 0 }
-func FireTimer(i int) bool             { return false }
-func DeepEqual(a, b any) bool          { return reflect.DeepEqual(a, b) }
+func Fuel(n int)                    {}
+func Tier() int                     { return tier }
+func Symbolic() bool                { return false }
+func Replace(target string, fn any) {}
+func StubPackage(path string)       {}
+func InitPackage(path string)       {}
+func MapOrderNondet(on bool)        {}
+func GoMode(m int)                  {}
+func Switches(n int)                {}
+func Yield()                        {}
+
+// Settle lets every other goroutine run until it blocks or exits (natively: a short sleep).
+func Settle()                 { time.Sleep(30 * time.Millisecond) }
+func NumTimers() int          { return 0 }
+func FireTimer(i int) bool    { return false }
+func DeepEqual(a, b any) bool { return reflect.DeepEqual(a, b) }
 
 // CountString counts the strings equal to s reachable from v through
 // pointers, interfaces, structs (unexported fields too), slices, arrays and maps.
@@ -294,12 +299,12 @@ type ReplayCase struct {
 
 // Outcome of one native replay.
 type Outcome struct {
-	Tag      string   `json:"tag"`
-	Harness  string   `json:"harness"`
-	Result   string   `json:"result"` // passed | violated | diverged | panicked
-	Failed   []string `json:"failed,omitempty"`
-	Detail   string   `json:"detail,omitempty"`
-	Covers   []string `json:"covers,omitempty"`
+	Tag     string   `json:"tag"`
+	Harness string   `json:"harness"`
+	Result  string   `json:"result"` // passed | violated | diverged | panicked
+	Failed  []string `json:"failed,omitempty"`
+	Detail  string   `json:"detail,omitempty"`
+	Covers  []string `json:"covers,omitempty"`
 }
 
 // RunReplay executes the cases of the file named by $VERIF_REPLAY against the
